@@ -1,6 +1,6 @@
 (** C14 — property theorems only.  Each is closed by [exact] of a lemma in Proofs.v and followed
     by [Print Assumptions]. *)
-From V Require Import Base.Util C14.Model C14.Proofs.
+From V Require Import Base.Util C14.Model C14.Proofs C14.Proofs2.
 
 (** Both sides derive their base options from the same configuration by the same function. *)
 Theorem C14_options_shared : forall c : cfg_text,
@@ -127,3 +127,87 @@ Theorem C14_names_guard_needed : exists t d B,
   bodies_ok B = true /\ names_ok t d = false /\ scan (dts_ops t d B) <> scan (js_ops (t_base t) d B).
 Proof. exists phantom_t, phantom_doc, phantom_B. exact names_guard_needed. Qed.
 Print Assumptions C14_names_guard_needed.
+
+(** * Histories with failing emits (emit_js since /repo 539df4b) *)
+
+(** Every emission of every history either is a module satisfying the property against the configuration
+    current at that step, or is the error naming a fragment that the resolved document indeed does not define. *)
+Theorem C14_history_failing : forall (h : list lop2) (cur : cfg_text),
+  Forall (fun e => match e with
+    | (c, d, B, EModule ops) =>
+        bodies_ok B = true -> names_ok (type_from_config (parse_config c)) d = true ->
+        length B = length (defs d) ->
+        incl (map zero_export (value_exports (scan (dts_of_config c d B)))) (value_exports (scan ops))
+        /\ default_names (scan (dts_of_config c d B)) = default_names (scan ops)
+    | (c, d, B, EError n) => ~ In n (frag_names (defs d))
+    end) (run_loader2 cur h).
+Proof. exact history2_ok. Qed.
+Print Assumptions C14_history_failing.
+
+(** a failing emit leaves every other emission of the history unchanged *)
+Theorem C14_history_failures_transparent : forall (h : list lop2) (cur : cfg_text),
+  filter is_module (run_loader2 cur h) = run_loader2 cur (filter (fun x => negb (failing_emit x)) h).
+Proof. exact history2_failures_transparent. Qed.
+Print Assumptions C14_history_failures_transparent.
+
+(** * The class colliding-variable-names, characterised *)
+
+(** [collides] is structural (same kind: names equal, modulo the case of the first letter when capitalising;
+    different kinds: only if one suffix ends with the other; fragment/fragment: same name). *)
+Theorem C14_collides_iff : forall (o : base_opts) (x y : def),
+  collides o x y = true <-> var_name o x = var_name o y.
+Proof. exact collides_iff. Qed.
+Print Assumptions C14_collides_iff.
+
+Theorem C14_collision_class : forall (o : base_opts) (d : doc),
+  distinct_vars o d = negb (has_collision o d).
+Proof. exact distinct_vars_has_collision. Qed.
+Print Assumptions C14_collision_class.
+
+(** under the default options the class is: two operations of the same kind whose names differ at most in
+    the case of the first letter, or a fragment called like an operation's variable *)
+Theorem C14_collision_class_default : forall d : doc,
+  distinct_vars base_default d = negb (pairwise_exists collides_default (defs d)).
+Proof. exact distinct_vars_default. Qed.
+Print Assumptions C14_collision_class_default.
+
+Theorem C14_cross_kind_never : forall (o : base_opts) (k1 k2 : opkind) (n1 n2 : option (str * pos)),
+  suffix_related (op_suffix o k1) (op_suffix o k2) = false ->
+  operation_var o k1 n1 <> operation_var o k2 n2.
+Proof. exact cross_kind_never. Qed.
+Print Assumptions C14_cross_kind_never.
+
+Theorem C14_fragments_never_collide : forall (o : base_opts) (l : list def),
+  nodupb (frag_names l) = true -> nodupb (map (fragment_var o) (frag_names l)) = true.
+Proof. exact fragments_never_collide. Qed.
+Print Assumptions C14_fragments_never_collide.
+
+(** the runtime statement, with the known-finding class given structurally *)
+Theorem C14_runtime_exports_outside_class : forall (t : type_opts) (d : doc) (B B' : list defbody),
+  bodies_ok B = true -> bodies_ok B' = true -> names_ok t d = true ->
+  length B = length (defs d) -> length B' = length (defs d) ->
+  has_collision (t_base t) d = false ->
+  incl (map zero_export (value_exports (scan (dts_ops t d B))))
+       (runtime_exports (scan (js_ops (t_base t) (loader_view d) B')))
+  /\ default_names (scan (dts_ops t d B)) = default_names (scan (js_ops (t_base t) (loader_view d) B')).
+Proof. exact runtime_exports_class. Qed.
+Print Assumptions C14_runtime_exports_outside_class.
+
+(** * The default-export rule, for every configuration text *)
+Theorem C14_default_export_rule : forall (c : cfg_text) (d : doc) (B B' : list defbody),
+  bodies_ok B = true -> bodies_ok B' = true ->
+  names_ok (type_from_config (parse_config c)) d = true ->
+  length B = length (defs d) -> length B' = length (defs d) ->
+  let o := js_from_config (parse_config c) in
+  let expected := if cfg_default_flag c && single_op d then map (var_name o) (filter is_op (defs d)) else [] in
+  default_names (scan (dts_of_config c d B)) = expected
+  /\ default_names (scan (js_of_config c d B')) = expected
+  /\ default_names (scan (js_of_config c (loader_view d) B')) = expected.
+Proof. exact default_rule_config. Qed.
+Print Assumptions C14_default_export_rule.
+
+Theorem C14_default_flag : forall c : cfg_text,
+  default_export_for_operation (base_from_config (parse_config c)) = cfg_default_flag c
+  /\ named_export_for_operation (base_from_config (parse_config c)) = negb (cfg_default_flag c).
+Proof. exact cfg_default_flag_spec. Qed.
+Print Assumptions C14_default_flag.
